@@ -79,7 +79,7 @@ Fixpoint ordered (js : list ojob) : bool :=
   | _ => true
   end.
 
-(* signature of the finding "Stop overlaps a due tick": some job was uploaded after the job that Stop() uploaded *)
+(* some job was uploaded after the job that Stop() uploaded (the defect repaired by /repo 628ae12) *)
 Fixpoint job_after_stop_job (js : list ojob) : bool :=
   match js with
   | [] => false
@@ -180,9 +180,9 @@ Definition check_case (c : case) : verdict :=
                             beqb (oj_units j) (pt_units p) && beqb (oj_agg j) (pt_agg p)) js)
          "job name or metadata differ from <app>.<type> / the session's configuration";
     spec (forallb (fun j => (oj_end j) mod I =? 0) js) "a window does not end on a multiple of the upload interval";
-    (if ordered js then Ok
-     else if job_after_stop_job js then Known "stop-overlaps-due-tick"
-     else SpecFails "a window starts before the previous one ended");
+    spec (ordered js) "a window starts before the previous one ended";
+    (* fixed in /repo 628ae12: a tick overlapping Stop used to upload a second window with the same start *)
+    spec (negb (job_after_stop_job js)) "a job was uploaded after the job uploaded by Stop()";
     (* stated hypothesis: clock observations of the sampling loop less than a third of the interval apart *)
     spec ((I <? 3 * q_maxgap c) || forallb (fun j => oj_end j - oj_start j <=? I) js)
          "a window is longer than one upload interval although the ticks were regular";
